@@ -120,8 +120,8 @@ CHECKS.update({
         design="5 C10",
         note="Deterministic tolerance as C02."),
     "C11": dict(
-        technique="TLC exhaustive (InLimits, RejectedStepChangesNothing) + complete case table of the limit test + "
-                  "TLC trace validation of recorded runs",
+        technique="TLC exhaustive (InLimits, RejectedStepChangesNothing) + Apalache inductive invariant for unbounded "
+                  "populations + complete case table of the limit test + TLC trace validation of recorded runs",
         level="model_checking",
         text="Jump.tla instances cover lower / upper / two-sided / absent limits; the complete table limit kind x value "
              "position for two states is replayed on _checkJump; recorded runs are rejected by TLC when a state is "
@@ -313,9 +313,9 @@ def main():
              "kind_free_text": "TLA+ specification (Poly, ModelSem, ModelDef, ParamBind, PygomModel, EvalCache, SensLayout, "
                                "Integrator, Jump, LossWiring, LossKernel, Rng, Abc, Fit; MC_*, OR_*, TR_*) checked with TLC 1.8; "
                                "conformance harness in harness/ and checks/"},
-            {"name": "apalache", "path": "spec/APA_EvalCache.tla", "serves_properties": ["C08"],
+            {"name": "apalache", "path": "spec/APA_EvalCache.tla, spec/APA_JumpLimits.tla", "serves_properties": ["C08", "C11"],
              "kind_free_text": "Apalache 0.58 discharges the inductive invariant of the canary design for unbounded histories "
-                               "(supporting the TLC refinement check of C08)"},
+                               "(C08) and of the limit discipline of the stochastic stepper for unbounded populations (C11)"},
         ],
         "checks": checks,
         "not_applicable": na,
